@@ -140,8 +140,8 @@ def c18_number(n: int) -> bool:
 # Part 2: confinement
 PIDSEL = ('absent', 'own0', 'own1', 'other_watcher', 'unrelated', 'dead', 'zero', 'minus1', 'string_own', 'child_of_own', 'daemon')
 CHILDSEL = ('absent', 'child0', 'grandchild0', 'child_of_other', 'own1', 'unrelated', 'zero', 'string_child')
-STATES = ('active', 'stopped', 'stopping', 'one_killed', 'other_stopping')
-SIGS = (15, 'usr1', 'SIGHUP', 9, '10')
+STATES = ('active', 'stopped', 'stopping', 'one_killed', 'other_stopping', 'after_recursive')
+SIGS = (15, 'usr1', 'SIGHUP', 9, '10', 0)          # 0: the null signal (existence probe) is a designation like any other
 
 
 def c18_confinement(cmd: int, ps: int, cs: int, ch: bool, rec: bool, st: int, sg: int, sc: int, vd: int) -> bool:
@@ -153,6 +153,7 @@ def c18_confinement(cmd: int, ps: int, cs: int, ch: bool, rec: bool, st: int, sg
     pre: 0 <= sc <= 1 and (sc == 0 or (cmd == 1 and st == 0))
     pre: 0 <= vd <= 8 and (vd == 0 or sc == 1)
     pre: st != 4 or (cmd == 0 and (cs == 3 or ps == 3))
+    pre: st != 5 or (cmd == 0 and cs in (1, 2) and ps == 1)
     post: _
     """
     from vtlib.harness.scen import World, Beh
@@ -175,6 +176,7 @@ def c18_confinement(cmd: int, ps: int, cs: int, ch: bool, rec: bool, st: int, sg
         unrelated = k.add_external(obey=None).pid
         dead = k.add_external(obey=0.0)
         k.external_kill(dead.pid)
+        orphan = []
         try:
             if STATES[st] == 'stopped':
                 w.call('stop', name='a', waiting=True, match='simple', max_time=10.0)
@@ -183,6 +185,15 @@ def c18_confinement(cmd: int, ps: int, cs: int, ch: bool, rec: bool, st: int, sg
             elif STATES[st] == 'one_killed':
                 # a worker was just terminated by a kill request: dead and reaped by poll(), its table entry not yet dropped
                 w.call('kill', name='a', pid=own[0], waiting=True, graceful_timeout=0.1, max_time=10.0)
+                w.run_for(0.01)
+            elif STATES[st] == 'after_recursive':
+                # an earlier request signalled the first worker's whole tree; then its child exits and the grandchild is re-parented to
+                # init: it is no descendant of any worker any more, whatever handles were seen earlier
+                w.call('signal', name='a', pid=own[0], signum='usr2', recursive=True, max_time=5.0)
+                kids_ = [c.pid for c in k.children_of(own[0], False)]
+                orphan = [c.pid for c in k.children_of(own[0], True) if c.pid not in kids_]
+                if kids_:
+                    k.external_kill(kids_[0])
                 w.run_for(0.01)
             elif STATES[st] == 'other_stopping':
                 # the OTHER watcher is in the grace period of a stop that listed its workers' children (stop_children)
@@ -199,6 +210,8 @@ def c18_confinement(cmd: int, ps: int, cs: int, ch: bool, rec: bool, st: int, sg
             childv = {'absent': None, 'child0': child0[0] if child0 else 1, 'grandchild0': grand0[0] if grand0 else 1,
                       'child_of_other': [c.pid for c in k.children_of(other[0], False)][0], 'own1': own[1], 'unrelated': unrelated, 'zero': 0,
                       'string_child': str(child0[0]) if child0 else '1'}[CHILDSEL[cs]]
+            if STATES[st] == 'after_recursive' and orphan:
+                childv = orphan[0]            # the former grandchild, now a child of init
             props = {'name': 'a'}
             if pidv is not None:
                 props['pid'] = pidv
